@@ -140,8 +140,10 @@ def gen_program(rng, plan, heap, workers, tag):
         p.add(f"root 0 {slot} null")
     rng.shuffle(combos)
     for opts in combos:
-        if opts == (0, 1, 0):
-            p.add("gc 0 1")     # make sure the memory IS free: this combination must not reach F5
+        if opts == (0, 1, 0) and plan in ("GenCopy", "GenImmix", "StickyImmix"):
+            # a nursery GC need not free mature chunks: make sure the memory IS free, this
+            # combination must not reach F5 (full-heap plans: the first blocking GC frees it)
+            p.add("gc 0 1")
         p.alloco(chunk // 2 + rng.randrange(0, 4096), "Los", 57, opts, "medium", "D")
     return p
 
